@@ -206,6 +206,16 @@ Fixpoint put_gray_cols (ys : list Z) (buf : list Z) (op : Z) : list Z :=
 Definition put_gray_rows : list (list Z) -> list Z -> list Z -> list Z := write_rows put_gray_cols.
 Definition grayscale_convert_d (img : list (list px3)) (buf : list Z) (ptrs : list Z) : list Z :=
   put_gray_rows (plane 0 img) buf ptrs.
+(* build_rgb_y_table + rgb_gray_convert of jdcolor.c (JCS_RGB JPEG -> JCS_GRAYSCALE): the decompressor's own
+   R,G,B => Y table (generated entries incl. the ONE_HALF term), no RANGE_LIMIT on the planes *)
+Definition d_ytab (k : nat) (i : Z) : Z :=
+  match nth k d_rgb_y_entries (0, 1, false) with
+  | (num, den, half) => fixc d_scalebits num den * i + (if half then 2 ^ (d_scalebits - 1) else 0)
+  end.
+Definition rgb_gray_d (p : sprec) (t : px3) : Z :=
+  to_sample p (Z.shiftr (d_ytab 0 (c0 t) + d_ytab 1 (c1 t) + d_ytab 2 (c2 t)) d_scalebits).
+Definition rgb_gray_convert_d (p : sprec) (img : list (list px3)) (buf : list Z) (ptrs : list Z) : list Z :=
+  put_gray_rows (map (map (rgb_gray_d p)) img) buf ptrs.
 Fixpoint gray_cols (buf : list Z) (ip : Z) (n : nat) : list Z :=
   match n with O => [] | S k => rd buf ip :: gray_cols buf (ip + 1) k end.
 Definition unpack_gray (buf : list Z) (ptrs : list Z) (w : nat) : list (list Z) :=
